@@ -136,9 +136,6 @@ func (kt *Keytab) AddEntry(principalName, realm, password string, ts time.Time, 
 	// Populate the keytab entry principal
 	ktep := newPrincipal()
 	ktep.NumComponents = int16(len(princ.NameString))
-	if kt.version == 1 {
-		ktep.NumComponents += 1
-	}
 
 	ktep.Realm = realm
 	ktep.Components = princ.NameString
@@ -395,7 +392,12 @@ func (p principal) marshal(v int) ([]byte, error) {
 	if v == 1 && isNativeEndianLittle() {
 		endian = binary.LittleEndian
 	}
-	endian.PutUint16(b[0:], uint16(p.NumComponents))
+	nc := p.NumComponents
+	if v == 1 {
+		//In version 1 the number of components includes the realm. Unmarshal removes it so add it back
+		nc++
+	}
+	endian.PutUint16(b[0:], uint16(nc))
 	realm, err := marshalString(p.Realm, v)
 	if err != nil {
 		return b, err
